@@ -66,11 +66,14 @@ Definition wp_init (buf : bytes) : outcome (bytes * wpit) :=
   obind (fparse flds) (fun wf =>
     Ok (tags, {| wp_buf := r3; wp_recs := ln; wp_cur := 0; wp_read := false; wp_wflds := wf; wp_lge := le_zero |}))))).
 
-(* Get: cached event while `read`; EOF (= Err) when cur >= recs or when the next event does not decode;
-   otherwise decode one event, Fields = write-level fields ++ the event's own parsed fields *)
-Definition wp_get (s : wpit) : wpit * outcome levent :=
-  if wp_read s then (s, Ok (wp_lge s))
-  else if wp_recs s <=? wp_cur s then (s, Err)
+(* Get: cached event while `read`; io.EOF (= Ok None) when cur >= recs; otherwise decode one event,
+   Fields = write-level fields ++ the event's own parsed fields.  When the next event does not decode (the
+   packet declares more events than it carries) the decode error is returned and nothing moves, so every
+   further Get reports it again ([eof_on_error] = false, the code).  [eof_on_error] = true is the code before
+   the repair: the counter moved on and the error was turned into io.EOF. *)
+Definition wp_get_v (eof_on_error : bool) (s : wpit) : wpit * outcome (option levent) :=
+  if wp_read s then (s, Ok (Some (wp_lge s)))
+  else if wp_recs s <=? wp_cur s then (s, Ok None)
   else
     let s1 := {| wp_buf := wp_buf s; wp_recs := wp_recs s; wp_cur := wp_cur s + 1; wp_read := false;
                  wp_wflds := wp_wflds s; wp_lge := wp_lge s |} in
@@ -78,11 +81,12 @@ Definition wp_get (s : wpit) : wpit * outcome levent :=
     | Ok (ae, rest) =>
         let lge := {| le_ts := ae_ts ae; le_msg := ae_msg ae; le_flds := wp_wflds s ++ field_parse (ae_flds ae) |} in
         ({| wp_buf := rest; wp_recs := wp_recs s; wp_cur := wp_cur s + 1; wp_read := true;
-            wp_wflds := wp_wflds s; wp_lge := lge |}, Ok lge)
-    | Err => (s1, Err)
-    | Panic => (s1, Panic)
-    | OutOfFuel => (s1, OutOfFuel)
+            wp_wflds := wp_wflds s; wp_lge := lge |}, Ok (Some lge))
+    | Err => if eof_on_error then (s1, Ok None) else (s, Err)
+    | Panic => (s, Panic)
+    | OutOfFuel => (s, OutOfFuel)
     end.
+Definition wp_get : wpit -> wpit * outcome (option levent) := wp_get_v false.
 
 (* Next: read = false *)
 Definition wp_next (s : wpit) : wpit :=
@@ -95,8 +99,9 @@ Fixpoint wp_drain (fuel : nat) (s : wpit) : outcome (list levent) :=
   | O => OutOfFuel
   | S f =>
       match wp_get s with
-      | (s', Ok e) => obind (wp_drain f (wp_next s')) (fun l => Ok (e :: l))
-      | (_, Err) => Ok []
+      | (s', Ok (Some e)) => obind (wp_drain f (wp_next s')) (fun l => Ok (e :: l))
+      | (_, Ok None) => Ok []
+      | (_, Err) => Err
       | (_, Panic) => Panic
       | (_, OutOfFuel) => OutOfFuel
       end
